@@ -366,9 +366,11 @@ def sort_keys(ctx):
         eng = Engine(F)
         eng.inline_filter = lambda p: p != "fibex::Reader::<B>::read_event"
         pushed = []
+        reach0 = set(cg.local_reachable([fn])) | {fn}
 
-        def on_call(eng_, st, fr, f, args, site, _fn=fn):
-            if re.search(r"Vec::<.*>::push$", f["path"]) and fr.path == _fn:
+        def on_call(eng_, st, fr, f, args, site, _fn=fn, _reach=reach0):
+            # the push may sit in a private helper (a newtype around the Vec): any 2-tuple pushed on the way counts
+            if re.search(r"Vec::<.*>::push$", f["path"]) and (fr.path == _fn or fr.path in _reach) and len(args) > 1 and isinstance(args[1], Struct) and len(args[1].fields) == 2:
                 pushed.append(args[1])
             return None
 
